@@ -224,7 +224,9 @@ impl Store {
             Entry::Condvar(entry) => entry.last_dependent_access(),
             Entry::Notify(entry) => entry.last_dependent_access(),
             Entry::RwLock(entry) => entry.last_dependent_access(),
-            Entry::Channel(entry) => entry.last_dependent_access(operation.action.into()),
+            Entry::Channel(entry) => {
+                entry.last_dependent_access(operation.action.into(), version)
+            }
             obj => panic!(
                 "object is not branchable {:?}; ref = {:?}",
                 obj, operation.obj
@@ -237,6 +239,9 @@ impl Store {
     pub(super) fn join_dependent_accesses(&self, operation: Operation, version: &mut VersionVec) {
         match &self.entries[operation.obj.index] {
             Entry::Arc(entry) => entry.join_dependent_accesses(operation.action.into(), version),
+            Entry::Channel(entry) => {
+                entry.join_dependent_accesses(operation.action.into(), version)
+            }
             Entry::Atomic(entry) => {
                 entry.join_dependent_accesses(operation.action.into(), version)
             }
